@@ -33,6 +33,34 @@ func (v *Verifier) call(st *State, in *ssa.Call) bool {
 	}
 	// dynamic call through a function value
 	f := v.val(st, cc.Value)
+	if !f.IsInt() && v.inc != nil {
+		// a function value read from a cell that callees may only have extended (not overwritten) shows up as
+		// a conditional on water marks: if every literal leaf is the same closure and the path entails it, use it
+		var lits []*Term
+		var leaves func(t *Term)
+		leaves = func(t *Term) {
+			if t.Op == "ite" {
+				leaves(t.Args[1])
+				leaves(t.Args[2])
+				return
+			}
+			if t.IsInt() {
+				lits = append(lits, t)
+			}
+		}
+		leaves(f)
+		if len(lits) > 0 {
+			same := true
+			for _, l := range lits {
+				if l != lits[0] {
+					same = false
+				}
+			}
+			if _, known := closures[lits[0].Int64()]; same && known && !v.inc.Feasible(st.pc, Neq(f, lits[0])) {
+				f = lits[0]
+			}
+		}
+	}
 	if f.IsInt() {
 		if ci, ok := closures[f.Int64()]; ok {
 			return v.callFn(st, in, ci.fn, ci.bindings, args)
